@@ -227,15 +227,14 @@ def retFree : Stmt → Bool
 /-- the stage-1 fragment (see the header), with the side conditions under which goja accepts and
 the mechanism is correct: loop counters of nested loops are distinct, a label is attached to a loop
 or to a non-labelled statement, every try has a catch or a finally, a finally block has no
-top-level break/continue (no `breaking` block) and contains no `return` (a return abandoned inside
-a finally block clobbers the pending return value: reported defect). -/
+top-level break/continue (no `breaking` block). -/
 def stage1 : Stmt → Bool
   | .skip | .log _ | .brk _ | .cont _ | .ret _ | .thr _ => true
   | .fatal => false
   | .seq a b => stage1 a && stage1 b
   | .tryS _ b hasC c hasF f =>
     (hasC || hasF) && stage1 b && (if hasC then stage1 c else c == .skip)
-      && (if hasF then stage1 f && retFree f && (firstBranch (flatten f)).isNone else f == .skip)
+      && (if hasF then stage1 f && (firstBranch (flatten f)).isNone else f == .skip)
   | .loop k id _ body => k != .forin && k != .forlet && stage1 body && !(ids body).contains id
   | .forOf _ _ => false
   | .lbl _ s => stage1 s && (isLoop s || !isLbl s)
